@@ -12,13 +12,17 @@
 (***************************************************************************)
 EXTENDS Failure
 
-CONSTANT Extras   \* script families, subset of {"none", "mup", "owed", "stale", "merge"}:
+CONSTANT ReuseSet \* subset of BOOLEAN: TRUE = the tasks were launched for an earlier environment, kept at its teardown and
+                  \* claimed by this one (--reuseUnlockedTasks): what their executor sends still names the old environment
+CONSTANT Extras   \* script families, subset of {"none", "mup", "owed", "stale", "merge", "order"}:
                   \* "none"  gates, the racing API transition parked early / late, faults
                   \* "mup"   a master-generated TASK_RUNNING update (no executor id / no ids at all), then a fault
                   \* "owed"  the racing API transition with one task's answer withheld: the task can die owing it,
                   \*         the answer is delivered late - before or after the watcher's timer (env.watch.fire held)
                   \* "stale" a stale healthy state message of the dead task is processed after its failure,
                   \*         within (timer held) or beyond the watcher's grace period
+                  \* "order" the two reactions to one terminal status (go updateTaskState(ERROR) || updateTaskStatus -> INACTIVE):
+                  \*         the state update is held at its entry (hook point task.state.update) until the status is INACTIVE
                   \* "merge" (FineChains) the ERROR update of the victim's role is held between its merge and its forwarding
                   \*         (hook point wf.taskrole.merged) while a stale healthy state message of the same task goes through
 
@@ -28,15 +32,16 @@ VARIABLES
   owedT,    \* the task whose answer is withheld
   fgate,    \* the watcher's timer callback parks at env.watch.fire
   mgate,    \* ERROR updates of task roles park right after their merge (wf.taskrole.merged)
+  sgate,    \* ERROR updates of tasks park at the entry of updateTaskState (task.state.update)
   extra,    \* the script family of this behaviour
   script,   \* script steps so far
   shape     \* the initial choice, kept for printing
 
-gvars == <<wgate, txgate, owedT, fgate, mgate, extra, script, shape>>
+gvars == <<wgate, txgate, owedT, fgate, mgate, sgate, extra, script, shape>>
 
 \* ---- pipeline under gates, in priority order --------------------------------
 PickMsg == CHOOSE m \in msgs : TRUE
-Held(c) == mgate /\ c.s = "ERROR" /\ c.pc \in {"pub", "fwd"}
+Held(c) == c.s = "ERROR" /\ ((mgate /\ c.pc \in {"pub", "fwd"}) \/ (sgate /\ c.pc = "task"))
 FreeChains == {c \in chains : ~Held(c)}
 PickChain == CHOOSE c \in FreeChains : \A d \in FreeChains : c.pc = "notify" \/ d.pc # "notify"
 PickStq == CHOOSE t \in stq : TRUE
@@ -73,7 +78,7 @@ NFaults == Cardinality({i \in 1..Len(script) : script[i][1] = "fault"})
 
 G_Fault(k, t) ==
   /\ Stable
-  /\ (extra = "mup" => script # <<>>) /\ (extra = "owed" => txgate = "owed") /\ (extra = "merge" => mgate)
+  /\ (extra = "mup" => script # <<>>) /\ (extra = "owed" => txgate = "owed") /\ (extra = "merge" => mgate) /\ (extra = "order" => sgate)
   /\ CASE k \in StatusKinds -> TaskTerminal(k, t)
        [] k = "TASK_FINISHED" -> Finished(t)
        [] k \in {"EXECUTOR_LOST", "AGENT_LOST"} -> GroupLost(k, t)
@@ -82,7 +87,7 @@ G_Fault(k, t) ==
   \* a task that dies owing its answer: the answer was already on its way (delivered by "latereply")
   /\ late' = IF txgate = "owed" /\ ~alive'[owedT] THEN late \cup {owedT} ELSE late
   /\ Step(<<"fault", k, t>>)
-  /\ UNCHANGED <<wgate, txgate, owedT, fgate, mgate, extra, shape>>
+  /\ UNCHANGED <<wgate, txgate, owedT, fgate, mgate, sgate, extra, shape>>
 
 \* the racing API transition, parked early (lock acquired, nothing sent) or late (state entered, lock held)
 G_Api(g) ==
@@ -92,7 +97,7 @@ G_Api(g) ==
   /\ ApiAcquire
   /\ txgate' = g
   /\ Step(<<"api", IF envSt = "CONFIGURED" THEN "START" ELSE "STOP", g>>)
-  /\ UNCHANGED <<wgate, owedT, fgate, mgate, extra, shape>>
+  /\ UNCHANGED <<wgate, owedT, fgate, mgate, sgate, extra, shape>>
 
 \* the racing API transition with the answer of task t withheld
 G_ApiOwed(t) ==
@@ -100,26 +105,26 @@ G_ApiOwed(t) ==
   /\ ApiAcquire
   /\ txgate' = "owed" /\ owedT' = t
   /\ Step(<<"api", IF envSt = "CONFIGURED" THEN "START" ELSE "STOP", "owed", t>>)
-  /\ UNCHANGED <<wgate, fgate, mgate, extra, shape>>
+  /\ UNCHANGED <<wgate, fgate, mgate, sgate, extra, shape>>
 
 G_LateReply ==
   /\ Stable /\ txgate = "owed" /\ NFaults > 0
   /\ txgate' = "none"
   /\ Step(<<"latereply", owedT>>)
-  /\ UNCHANGED vars /\ UNCHANGED <<wgate, owedT, fgate, mgate, extra, shape>>
+  /\ UNCHANGED vars /\ UNCHANGED <<wgate, owedT, fgate, mgate, sgate, extra, shape>>
 
 G_Stale(t) ==
   /\ extra \in {"stale", "merge"} /\ Stable /\ txgate = "none"
   /\ (extra = "merge" => mgate)
   /\ StaleUpdate(t)
   /\ Step(<<"stale", t>>)
-  /\ UNCHANGED <<wgate, txgate, owedT, fgate, mgate, extra, shape>>
+  /\ UNCHANGED <<wgate, txgate, owedT, fgate, mgate, sgate, extra, shape>>
 
 G_MasterUpdate(t, v) ==
   /\ extra = "mup" /\ Stable /\ txgate = "none" /\ NFaults = 0 /\ script = <<>>
   /\ MasterUpdate(t, v)
   /\ Step(<<"mupdate", t, v>>)
-  /\ UNCHANGED <<wgate, txgate, owedT, fgate, mgate, extra, shape>>
+  /\ UNCHANGED <<wgate, txgate, owedT, fgate, mgate, sgate, extra, shape>>
 
 \* hold the 500 ms timer of the watcher: what follows the fault is processed within the grace period
 G_ArmF ==
@@ -127,55 +132,68 @@ G_ArmF ==
   /\ (extra = "owed" /\ txgate = "owed") \/ (extra = "stale" /\ script = <<>>)
   /\ fgate' = TRUE
   /\ Step(<<"armf">>)
-  /\ UNCHANGED vars /\ UNCHANGED <<wgate, txgate, owedT, mgate, extra, shape>>
+  /\ UNCHANGED vars /\ UNCHANGED <<wgate, txgate, owedT, mgate, sgate, extra, shape>>
 
 G_ArmM ==
   /\ extra = "merge" /\ Stable /\ ~mgate /\ script = <<>>
   /\ mgate' = TRUE
   /\ Step(<<"armm">>)
-  /\ UNCHANGED vars /\ UNCHANGED <<wgate, txgate, owedT, fgate, extra, shape>>
+  /\ UNCHANGED vars /\ UNCHANGED <<wgate, txgate, owedT, fgate, sgate, extra, shape>>
 
 G_ReleaseM ==
   /\ Stable /\ mgate /\ NFaults > 0
   /\ mgate' = FALSE
   /\ Step(<<"releasem">>)
-  /\ UNCHANGED vars /\ UNCHANGED <<wgate, txgate, owedT, fgate, extra, shape>>
+  /\ UNCHANGED vars /\ UNCHANGED <<wgate, txgate, owedT, fgate, sgate, extra, shape>>
+
+G_ArmS ==
+  /\ extra = "order" /\ Stable /\ ~sgate /\ script = <<>>
+  /\ sgate' = TRUE
+  /\ Step(<<"arms">>)
+  /\ UNCHANGED vars /\ UNCHANGED <<wgate, txgate, owedT, fgate, mgate, extra, shape>>
+
+\* (the pipeline is stable: the status reaction has made the task INACTIVE)
+G_ReleaseS ==
+  /\ Stable /\ sgate /\ NFaults > 0
+  /\ sgate' = FALSE
+  /\ Step(<<"releases">>)
+  /\ UNCHANGED vars /\ UNCHANGED <<wgate, txgate, owedT, fgate, mgate, extra, shape>>
 
 G_ReleaseF ==
   /\ Stable /\ fgate /\ NFaults > 0
   /\ fgate' = FALSE
   /\ Step(<<"releasef">>)
-  /\ UNCHANGED vars /\ UNCHANGED <<wgate, txgate, owedT, mgate, extra, shape>>
+  /\ UNCHANGED vars /\ UNCHANGED <<wgate, txgate, owedT, mgate, sgate, extra, shape>>
 
 \* arm the watcher gate while it waits at its select: it will park at its next receive
 G_ArmW ==
   /\ extra = "none" /\ Stable /\ ~wgate /\ wpc = "select" /\ NFaults = 0 /\ budget > 1
   /\ wgate' = TRUE
   /\ Step(<<"armw">>)
-  /\ UNCHANGED vars /\ UNCHANGED <<txgate, owedT, fgate, mgate, extra, shape>>
+  /\ UNCHANGED vars /\ UNCHANGED <<txgate, owedT, fgate, mgate, sgate, extra, shape>>
 
 G_ReleaseW ==
   /\ Stable /\ wgate /\ NFaults > 0
   /\ wgate' = FALSE
   /\ Step(<<"releasew">>)
-  /\ UNCHANGED vars /\ UNCHANGED <<txgate, owedT, fgate, mgate, extra, shape>>
+  /\ UNCHANGED vars /\ UNCHANGED <<txgate, owedT, fgate, mgate, sgate, extra, shape>>
 
 G_ReleaseTx ==
   /\ Stable /\ txgate \in {"early", "late"} /\ NFaults > 0
   /\ txgate' = "none"
   /\ Step(<<"releasetx">>)
-  /\ UNCHANGED vars /\ UNCHANGED <<wgate, owedT, fgate, mgate, extra, shape>>
+  /\ UNCHANGED vars /\ UNCHANGED <<wgate, owedT, fgate, mgate, sgate, extra, shape>>
 
 GenInit ==
   /\ Init
   /\ wgate = (wpc \in {"unsub", "busy"})
-  /\ txgate = "none" /\ owedT = "none" /\ fgate = FALSE /\ mgate = FALSE
+  /\ txgate = "none" /\ owedT = "none" /\ fgate = FALSE /\ mgate = FALSE /\ sgate = FALSE
   /\ extra \in Extras
   /\ (extra = "owed" => apiLeft > 0)
-  /\ (extra \in {"mup", "stale", "merge"} => wpc = "select")
+  /\ (extra \in {"mup", "stale", "merge", "order"} => wpc = "select")
   /\ (extra = "merge" => FineChains)
   /\ script = <<>>
-  /\ shape = [crit |-> crit, layout |-> layout, hook |-> hook, state |-> envSt, watch |-> wpc]
+  /\ \E ru \in ReuseSet : shape = [crit |-> crit, layout |-> layout, hook |-> hook, state |-> envSt, watch |-> wpc, reused |-> ru]
 
 GenNext ==
   \/ G_Pipeline
@@ -183,11 +201,11 @@ GenNext ==
   \/ \E g \in {"early", "late"} : G_Api(g)
   \/ G_ArmW \/ G_ReleaseW \/ G_ReleaseTx
   \/ \E t \in Tasks : G_ApiOwed(t) \/ G_Stale(t) \/ G_MasterUpdate(t, "noexec") \/ G_MasterUpdate(t, "noids")
-  \/ G_LateReply \/ G_ArmF \/ G_ReleaseF \/ G_ArmM \/ G_ReleaseM
+  \/ G_LateReply \/ G_ArmF \/ G_ReleaseF \/ G_ArmM \/ G_ReleaseM \/ G_ArmS \/ G_ReleaseS
 
 GenSpec == GenInit /\ [][GenNext]_<<vars, gvars>>
 
 PrintCase ==
-  (Stable /\ ~wgate /\ ~fgate /\ ~mgate /\ txgate = "none" /\ NFaults > 0 /\ script[Len(script)][1] \notin {"armw", "armf"})
+  (Stable /\ ~wgate /\ ~fgate /\ ~mgate /\ ~sgate /\ txgate = "none" /\ NFaults > 0 /\ script[Len(script)][1] \notin {"armw", "armf"})
     => PrintT(<<"CASE", shape, script>>)
 =============================================================================
